@@ -4,5 +4,5 @@ set -e
 cd "$(dirname "$0")"
 export GOFLAGS=-mod=mod GOPROXY=off GOSUMDB=off
 mkdir -p bin
-(cd cmd && go build -o ../bin/simcheck ./simcheck && go build -o ../bin/gitshim ./gitshim)
+(cd cmd && go build -o ../bin/simcheck ./simcheck && go build -o ../bin/gitshim ./gitshim && go build -o ../bin/yieldinst ./yieldinst)
 echo "setup ok"
